@@ -1,19 +1,44 @@
 // C10: inverse / determinant and their gtc variants
+// CFG 0: default (packed types)   1: GLM_FORCE_DEFAULT_ALIGNED_GENTYPES + GLM_FORCE_INTRINSICS: every mat/vec is aligned_highp, so glm
+//        instantiates its `Aligned = true` generic templates (inv3x3 by cross products, aligned dot/cross, …) — at the symbolic scalar
+//        type these are ordinary C++ (the float/double SIMD specialisations are C03's business); units get the suffix A
+// CONFIGS 2
 // NPARTS 3
+#ifndef CFG
+#define CFG 0
+#endif
+#if CFG == 1
+#define GLM_FORCE_DEFAULT_ALIGNED_GENTYPES
+#define GLM_FORCE_INTRINSICS
+#define SUF "A"
+#else
+#define SUF ""
+#endif
 #include "common.hpp"
 #include <glm/gtc/matrix_inverse.hpp>
 #include <glm/gtx/matrix_operation.hpp>
 using namespace symt;
+// CFG 1: the float instantiation would run glm's SSE kernels (C03's subject, not the code traced here), so these units are validated at
+// double only — at the SSE2 level an aligned double type runs exactly the generic `Aligned = true` templates that the tracer sees
+template<class F> void add_unit_dbl(std::string const& name, int nin, int nout, F f) {
+  UnitRec u; u.name = name; u.nin = nin; u.nout = nout;
+  u.fsym = [f](SymR const* x, SymR* o) { f(x, o); };
+  u.f64 = [f](double const* x, double* o) { f(x, o); };
+  registry().push_back(std::move(u));
+}
+#if CFG == 1
+#define add_unit add_unit_dbl
+#endif
 
 template<int N> void reg_sq() {
-  add_unit(nm("det", {N}), N * N, 1, [](auto const* x, auto* o) { using T = TY(o); o[0] = glm::determinant(ldm<N, N, T>(x)); });
-  add_unit(nm("inv", {N}), N * N, N * N, [](auto const* x, auto* o) { using T = TY(o); stm(o, glm::inverse(ldm<N, N, T>(x))); });
-  add_unit(nm("invtr", {N}), N * N, N * N, [](auto const* x, auto* o) { using T = TY(o); stm(o, glm::inverseTranspose(ldm<N, N, T>(x))); });
-  add_unit(nm("divmm", {N}), 2 * N * N, N * N, [](auto const* x, auto* o) { using T = TY(o); stm(o, ldm<N, N, T>(x) / ldm<N, N, T>(x + N * N)); });
-  add_unit(nm("asgdiv_m", {N}), 2 * N * N, N * N, [](auto const* x, auto* o) { using T = TY(o); auto m = ldm<N, N, T>(x); m /= ldm<N, N, T>(x + N * N); stm(o, m); });
-  add_unit(nm("divmv", {N}), N * N + N, N, [](auto const* x, auto* o) { using T = TY(o); stv(o, ldm<N, N, T>(x) / ldv<N, T>(x + N * N)); });
-  add_unit(nm("divvm", {N}), N + N * N, N, [](auto const* x, auto* o) { using T = TY(o); stv(o, ldv<N, T>(x) / ldm<N, N, T>(x + N)); });
-  add_unit(nm("adjugate", {N}), N * N, N * N, [](auto const* x, auto* o) { using T = TY(o); stm(o, glm::adjugate(ldm<N, N, T>(x))); });
+  add_unit(nm("det" SUF, {N}), N * N, 1, [](auto const* x, auto* o) { using T = TY(o); o[0] = glm::determinant(ldm<N, N, T>(x)); });
+  add_unit(nm("inv" SUF, {N}), N * N, N * N, [](auto const* x, auto* o) { using T = TY(o); stm(o, glm::inverse(ldm<N, N, T>(x))); });
+  add_unit(nm("invtr" SUF, {N}), N * N, N * N, [](auto const* x, auto* o) { using T = TY(o); stm(o, glm::inverseTranspose(ldm<N, N, T>(x))); });
+  add_unit(nm("divmm" SUF, {N}), 2 * N * N, N * N, [](auto const* x, auto* o) { using T = TY(o); stm(o, ldm<N, N, T>(x) / ldm<N, N, T>(x + N * N)); });
+  add_unit(nm("asgdiv_m" SUF, {N}), 2 * N * N, N * N, [](auto const* x, auto* o) { using T = TY(o); auto m = ldm<N, N, T>(x); m /= ldm<N, N, T>(x + N * N); stm(o, m); });
+  add_unit(nm("divmv" SUF, {N}), N * N + N, N, [](auto const* x, auto* o) { using T = TY(o); stv(o, ldm<N, N, T>(x) / ldv<N, T>(x + N * N)); });
+  add_unit(nm("divvm" SUF, {N}), N + N * N, N, [](auto const* x, auto* o) { using T = TY(o); stv(o, ldv<N, T>(x) / ldm<N, N, T>(x + N)); });
+  add_unit(nm("adjugate" SUF, {N}), N * N, N * N, [](auto const* x, auto* o) { using T = TY(o); stm(o, glm::adjugate(ldm<N, N, T>(x))); });
 }
 
 int main(int argc, char** argv) {
@@ -25,9 +50,9 @@ int main(int argc, char** argv) {
 #endif
 #if IN_PART(2)
   // affineInverse: M is affine, i.e. its last row is (0,…,0,1); inputs are the other rows, column-major
-  add_unit("affinv_3", 6, 9, [](auto const* x, auto* o) { using T = TY(o);
+  add_unit("affinv" SUF "_3", 6, 9, [](auto const* x, auto* o) { using T = TY(o);
     glm::mat<3, 3, T, glm::defaultp> m(x[0], x[1], T(0), x[2], x[3], T(0), x[4], x[5], T(1)); stm(o, glm::affineInverse(m)); });
-  add_unit("affinv_4", 12, 16, [](auto const* x, auto* o) { using T = TY(o);
+  add_unit("affinv" SUF "_4", 12, 16, [](auto const* x, auto* o) { using T = TY(o);
     glm::mat<4, 4, T, glm::defaultp> m(x[0], x[1], x[2], T(0), x[3], x[4], x[5], T(0), x[6], x[7], x[8], T(0), x[9], x[10], x[11], T(1)); stm(o, glm::affineInverse(m)); });
 #endif
   return unit_main(argc, argv);
